@@ -113,10 +113,15 @@ type modDef struct {
 func mods() []modDef {
 	// ids ending in "p" name permissive rules (the request passes through the rule's machinery)
 	perm := func(id string) bool { return id[len(id)-1] == 'p' }
+	// ids ending in "i" name invalid rules (a load that consists of them leaves the resource without rules)
+	inval := func(id string) bool { return id[len(id)-1] == 'i' }
 	fl := func(id string) *flow.Rule {
 		r := &flow.Rule{ID: id, Resource: id[:1], Threshold: 0}
 		if perm(id) {
 			r.Threshold, r.StatIntervalInMs = 1e9, 700 // standalone window: the standalone stat slot is exercised too
+		}
+		if inval(id) {
+			r.Threshold = -1
 		}
 		return r
 	}
@@ -125,6 +130,9 @@ func mods() []modDef {
 		if perm(id) {
 			r.Threshold = 1000000
 		}
+		if inval(id) {
+			r.Threshold = 0
+		}
 		return r
 	}
 	hs := func(id string) *hotspot.Rule {
@@ -132,12 +140,18 @@ func mods() []modDef {
 		if perm(id) {
 			r.Threshold = 1000000
 		}
+		if inval(id) {
+			r.Threshold = -1
+		}
 		return r
 	}
 	br := func(id string) *cb.Rule {
 		r := &cb.Rule{Id: id, Resource: id[:1], Strategy: cb.ErrorCount, RetryTimeoutMs: 1000000, MinRequestAmount: 1, StatIntervalMs: 10000, Threshold: 1}
 		if perm(id) {
 			r.Threshold = 1000000
+		}
+		if inval(id) {
+			r.Threshold = -1
 		}
 		return r
 	}
@@ -273,6 +287,9 @@ func moduleScenarios(m modDef, quick bool) []*scenario {
 		{"ClearRules()", func() { m.clear() }, []string{"blocked-by:ao", "pass"}},
 		{"ClearRulesOfResource(a)", func() { m.clearRes("a") }, []string{"blocked-by:ao", "pass"}},
 		{"LoadRules([ao,an,bo])", func() { m.load("ao", "an", "bo") }, []string{"blocked-by:ao"}},
+		// a load that consists of invalid rules only: the resource is left without rules
+		{"LoadRulesOfResource(a,[invalid])", func() { m.loadRes("a", "ai") }, []string{"blocked-by:ao", "pass"}},
+		{"LoadRulesOfResource(c,[invalid])", func() { m.loadRes("c", "ci") }, []string{"blocked-by:ao"}},
 	}
 	for _, w := range writers {
 		w := w
